@@ -17,8 +17,7 @@ Dots(s) == {i \in 1..Len(s) : s[i] = DOT}
 NoEmptyLabel(s) == /\ Len(s) >= 1 /\ s[1] # DOT /\ s[Len(s)] # DOT
                    /\ \A i \in 1..(Len(s) - 1) : ~(s[i] = DOT /\ s[i + 1] = DOT)
 \* every maximal dot-free run is at most 63 long
-LabelsShort(s) == \A i \in 1..Len(s) : \A j \in i..Len(s) :
-                     (j - i + 1 > 63) => \E k \in i..j : s[k] = DOT
+LabelsShort(s) == \A i \in 1..(Len(s) - 63) : \E k \in i..(i + 63) : s[k] = DOT     \* every 64-char window holds a dot
 
 \* "3..128 characters of letters, digits, '-' and '.', at least two non-empty labels of at most 63 characters,
 \*  and (server only) may start with a single '*.' wildcard label"
